@@ -37,7 +37,9 @@ RULE = ("documents: 0-12 hit objects over lanes 1-10 with StartTime/KeySounds/La
         "natively, with from_dict, or converted (OsuToQua, SMToQua, BMSToQua, O2JToQua) from source charts that first went through "
         "0-3 ordinary operations (after/before/between, boolean mask, reverse sort, sort, append, stack edit, rate - they leave "
         "non-default row labels), offsets from integers, dyadic rationals, "
-        "arbitrary doubles and values next to a whole millisecond; claims read/write/rw/wr; non-trivial = at least one "
+        "arbitrary doubles and values next to a whole millisecond; every text (given or written) also goes through the text-layer "
+        "model: emitQua(tree of the model's document, record keys in the frame's column order) == write() text for every entry "
+        "of the scalar class, parseQua(text) == yaml.safe_load(text) wherever parseQua accepts; claims read/write/rw/wr; non-trivial = at least one "
         "hit object or tempo point and (an omitted key, a hold, a fractional time, a quoted string, or a converted chart)")
 ASSUMPTIONS = [
     "the format's defaults for omitted keys are the ones reamberPy's reader documents (StartTime 0, KeySounds [], Bpm 120, "
@@ -48,7 +50,13 @@ ASSUMPTIONS = [
     "unknown per-object keys (pandas pass-through columns), YAML null / non-numeric values in numeric keys and NaN offsets are "
     "outside the modelled domain",
 ]
-TRUSTED_EXTRA = ["PyYAML safe_load / CDumper (the model starts at the parsed document; text is exercised, not modelled)"]
+TRUSTED_EXTRA = ["PyYAML safe_load / libyaml CDumper outside the modelled text dialect (Model/QuaText.lean: block style, one-line plain / "
+                 "single-quoted scalars, lists of mappings two deep); inside it emitQua is compared character for character with "
+                 "write() (whole text when every entry is in the class, else entry by entry) and parseQua with yaml.safe_load "
+                 "(whole text and every top-level entry) on every case; double-quoted, folded and multi-line scalars, flow style: "
+                 "exercised, not modelled",
+                 "CPython repr(float) (shortest round-trip decimal) and float(str): the model takes the lexeme; the harness checks "
+                 "that the exact value of every float lexeme rounds to the double PyYAML returned"]
 
 KEY_ATTR = [("AudioFile", "audio_file"), ("SongPreviewTime", "song_preview_time"), ("BackgroundFile", "background_file"),
             ("BannerFile", "banner_file"), ("Genre", "genre"),
@@ -759,6 +767,20 @@ def corpus():
     hand = ("Title: carry me away\n  extended mix\nArtist: >\n  lapix and\n  friends\nDescription: |\n  line one\n  line two\n"
             "Source: \"double quoted\n  continued\"\nTags: a b c\n  d e\nInitialScrollVelocity: 1.0\n"
             "HitObjects:\n- StartTime: 100\n  Lane: 2\n  KeySounds: []\nTimingPoints:\n- StartTime: 0\n  Bpm: 120.0\nSliderVelocities: []\n")
+    # the text layer: a file laid out the way the Quaver editor writes it (block style, dashes at the key's column, one-line
+    # plain / single-quoted scalars) lies inside the subset parseQua reads; the bundled rsc/maps/qua/*.qua do too
+    editor = ("AudioFile: audio.mp3\nSongPreviewTime: 32455\nBackgroundFile: bg file.jpg\nMapId: -1\nMapSetId: -1\nMode: Keys4\n"
+              "Title: Carry Me Away (Extended Mix)\nArtist: lapix\nSource: ''\nTags: 'one two'\nCreator: '123'\n"
+              "DifficultyName: 4K - it's no.1\nDescription: Created at 1568028960304\nBPMDoesNotAffectScrollVelocity: true\n"
+              "InitialScrollVelocity: 1.5\nEditorLayers: []\nCustomAudioSamples: []\nSoundEffects: []\n"
+              "TimingPoints:\n- StartTime: 601\n  Bpm: 175\n- StartTime: 1200.5\n  Bpm: 87.5\n"
+              "SliderVelocities:\n- StartTime: 601\n  Multiplier: 0.85\n- Multiplier: 1.0e-07\n"
+              "HitObjects:\n- StartTime: 601\n  Lane: 2\n  KeySounds: []\n- StartTime: 772\n  Lane: 4\n  EndTime: 943\n  KeySounds:\n"
+              "  - Sample: 1\n    Volume: 100\n  - Sample: 2\n    Volume: 50\n- Lane: 1\n  KeySounds: []\n")
+    c.extend(dict(claim="text", bundled=b) for b in BUNDLED)
+    c.append(dict(claim="read", text=editor))
+    c.append(dict(claim="wr", text=editor))
+    c.append(dict(claim="read", text=editor, via="file"))
     for via in ("file", "file_crlf", "lines"):
         c.append(dict(claim="read", text=hand, via=via))
         c.append(dict(claim="wr", via=via, doc=_doc(ho=[dict(StartTime=1, Lane=1, KeySounds=ks0)], Title=long_title, Tags=" ".join(tags30),
@@ -806,6 +828,8 @@ def corpus():
 def valid(case):
     try:
         cl = case["claim"]
+        if cl == "text":
+            return case.get("bundled") in BUNDLED
         if case.get("via", "text") not in VIAS:
             return False
         if cl in ("read", "wr"):
@@ -993,10 +1017,288 @@ def meta_problems(c0, c1, tags_ok):
     return probs
 
 
+
+# ------------------------------------------------------------------------------------------ the YAML text layer
+
+SECTION_ORDER = ("TimingPoints", "SliderVelocities", "HitObjects")     # QuaMap.write: after the metadata, in this order
+WIRE_SEC = {v: k for k, v in SEC_WIRE.items()}
+
+
+def flt_lex(x):
+    """PyYAML represent_float: the lexeme of a double (the shortest-repr algorithm itself is CPython's, not modelled)"""
+    if x != x:
+        return ".nan"
+    if x == math.inf:
+        return ".inf"
+    if x == -math.inf:
+        return "-.inf"
+    v = repr(float(x)).lower()
+    if "." not in v and "e" in v:
+        v = v.replace("e", ".0e", 1)
+    return v
+
+
+def _sc_of_yv(v):
+    t = v["t"]
+    if t == "nan":
+        return dict(t="flt", lex=".nan")
+    if t == "flt":
+        return dict(t="flt", lex=flt_lex(float(F(v["v"]))))
+    if t in ("bool", "int", "str"):
+        return dict(t=t, v=v["v"])
+    if t == "ks":
+        if not v["v"]:
+            return dict(t="empty")
+        return dict(t="recs", v=[[["Sample", dict(t="int", v=a)], ["Volume", dict(t="int", v=b)]] for a, b in v["v"]])
+    if t == "strs" and not v["v"]:
+        return dict(t="empty")
+    raise ValueError("outside the dialect: " + t)
+
+
+def tree_of_wire_doc(doc):
+    """the document `QuaMap.write` hands to yaml.dump, as the model computed it -> Tree wire; a top-level entry whose value is
+    outside the dialect (a non-empty list that is not a list of mappings of the dialect) is kept with value None: its text is
+    not compared, the entries around it are.  None = no section list at all"""
+    def sc(v):
+        try:
+            return _sc_of_yv(v)
+        except ValueError:
+            return None
+    out = [[k, sc(v)] for k, v in doc["meta"]]
+    for name in SECTION_ORDER:
+        recs = doc.get(SEC_WIRE[name])
+        if recs is None:
+            return None
+        if not recs:
+            out.append([name, dict(t="empty")])
+            continue
+        rs = [[[k, sc(v)] for k, v in r] for r in recs]
+        if any(not r or any(v is None for _, v in r) for r in rs):
+            out.append([name, None])
+        else:
+            out.append([name, dict(t="recs", v=rs)])
+    return out
+
+
+def _sc_matches(v, pv):
+    t = v["t"]
+    if t == "null":
+        return pv is None
+    if t == "bool":
+        return isinstance(pv, bool) and pv == v["v"]
+    if t == "int":
+        return isinstance(pv, int) and not isinstance(pv, bool) and pv == v["v"]
+    if t == "str":
+        return isinstance(pv, str) and pv == v["v"]
+    if t == "flt":
+        if not isinstance(pv, float):
+            return False
+        if v.get("val") is None:
+            lex = v["lex"].lower()
+            return (pv != pv) if lex == ".nan" else pv == (-math.inf if lex.startswith("-") else math.inf)
+        fr = Fr(int(v["val"][0]), int(v["val"][1]))
+        try:
+            return float(fr) == pv           # the value the lexeme denotes, correctly rounded
+        except OverflowError:
+            return pv == (math.inf if fr > 0 else -math.inf)
+    return False
+
+
+def tree_matches_py(ents, d):
+    """a parsed Tree (driver) against what yaml.safe_load returned for the same text: same keys in the same order,
+    same kinds, same values (a float lexeme by the double it rounds to)"""
+    if not isinstance(d, dict) or [e[0] for e in ents] != list(d.keys()):
+        return False
+    for k, v in ents:
+        pv = d[k]
+        if v["t"] == "empty":
+            good = isinstance(pv, list) and not pv
+        elif v["t"] == "recs":
+            good = isinstance(pv, list) and len(pv) == len(v["v"]) and all(tree_matches_py(r, x) for r, x in zip(v["v"], pv))
+        else:
+            good = _sc_matches(v, pv)
+        if not good:
+            return False
+    return True
+
+
+def _order_like(ents, d):
+    """the order of the keys inside a record is the frame's column order (not a matter of the model: records are compared
+    as mappings); take it from the implementation's record with the same position.  The top-level order stays the model's."""
+    def reorder(rec, prec):
+        if not isinstance(prec, dict) or set(prec) != {k for k, _ in rec}:
+            return rec
+        pos = {k: i for i, k in enumerate(prec)}
+        out = sorted(rec, key=lambda kv: pos[kv[0]])
+        return [[k, (dict(t="recs", v=[reorder(r, x) for r, x in zip(v["v"], prec[k])])
+                     if v["t"] == "recs" and isinstance(prec[k], list) and len(prec[k]) == len(v["v"]) else v)] for k, v in out]
+    out = []
+    for k, v in ents:
+        pv = d.get(k) if isinstance(d, dict) else None
+        if v is not None and v["t"] == "recs" and isinstance(pv, list) and len(pv) == len(v["v"]):
+            v = dict(t="recs", v=[reorder(r, x) for r, x in zip(v["v"], pv)])
+        out.append([k, v])
+    return out
+
+
+def _first_diff(a, b):
+    la, lb = a.split("\n"), b.split("\n")
+    for i in range(max(len(la), len(lb))):
+        x, y = (la[i] if i < len(la) else None), (lb[i] if i < len(lb) else None)
+        if x != y:
+            return dict(line=i + 1, impl=x, model=y)
+    return None
+
+
+def segments(text):
+    """the top-level entries of a block-style text: a line that starts in column 0 (and not with a dash: sequences in a
+    mapping are not indented) opens one, indented and blank lines continue it"""
+    lines = text.split("\n")
+    if lines and lines[-1] == "":
+        lines.pop()
+    segs = []
+    for ln in lines:
+        if not segs or (ln and ln[0] not in " \t-"):
+            segs.append([ln])
+        else:
+            segs[-1].append(ln)
+    return ["\n".join(sg) + "\n" for sg in segs]
+
+
+def segment_parse_check(drv, text, tags, detail):
+    """parseQua against yaml.safe_load on every top-level entry of the text separately (the same string to both)"""
+    import yaml
+    segs = segments(text)
+    if not segs or len(segs) > 200:
+        return True
+    trees = drv.call("c06.parse_segments", segs=segs)["ok"]
+    n_in, agree = 0, True
+    for sg, tr in zip(segs, trees):
+        if tr is None:
+            continue
+        n_in += 1
+        try:
+            py = yaml.safe_load(sg)
+        except Exception as e:
+            py = e
+        if not tree_matches_py(tr, py):
+            agree = False
+            detail.setdefault("segment_parse", []).append(dict(segment=sg, parsed=tr, safe_load=repr(py)[:500]))
+    tags.append("segments-parsed:%d/4" % (4 * n_in // len(segs)))
+    return agree
+
+
+def text_parse_check(drv, text, pdoc, wire, tags, detail, must_parse=False):
+    """parseQua(text) against yaml.safe_load(text) (and treeDoc against the harness' own document encoding);
+    returns agree"""
+    try:
+        p = drv.call("c06.parse_text", text=text)["ok"]
+    except UnicodeEncodeError:          # a lone surrogate cannot travel
+        tags.append("parse-not-sent")
+        return True
+    if p["tree"] is None:
+        tags.append("parse-outside-subset")
+        if must_parse:
+            detail["text_parse"] = "parseQua rejects a text emitQua produced"
+            return False
+        return segment_parse_check(drv, text, tags, detail)
+    tags.append("parse-in-subset")
+    agree = True
+    if not tree_matches_py(p["tree"], pdoc):
+        agree = False
+        detail["text_parse"] = dict(parsed=p["tree"], safe_load=repr(pdoc)[:2000])
+    if p["doc"] is not None:
+        q = docs_equal(p["doc"], wire)
+        if q:
+            agree = False
+            detail["text_doc"] = q[:8]
+    if p["reemit"] is not None and len(text) and text.endswith("\n") and "written" in tags and p["reemit"] != text:
+        agree = False
+        detail["text_reemit"] = _first_diff(text, p["reemit"])
+    return agree
+
+
+def text_write_check(drv, model_doc, text, pdoc, wire, tags, detail):
+    """emitQua(tree of the model's document) against the text QuaMap.write returned, character for character;
+    then parseQua on that text"""
+    tree = tree_of_wire_doc(model_doc)
+    if tree is not None:
+        tree = _order_like(tree, pdoc)
+    agree, in_class = True, False
+    if tree is None:
+        tags.append("text-outside-dialect")
+    else:
+        known = [e for e in tree if e[1] is not None]
+        r = drv.call("c06.emit_text", tree=known)["ok"] if len(known) == len(tree) else dict(text=None, nodup=True)
+        if r["text"] is None:
+            # entry by entry: every top-level entry of the class must stand in the text exactly as the model emits it
+            tags.append("text-outside-class" if len(known) == len(tree) else "text-outside-dialect-entries")
+            segs = segments(text)
+            it = iter(drv.call("c06.emit_entries", tree=known)["ok"])
+            texts = [next(it) if e[1] is not None else None for e in tree]
+            if len(segs) != len(texts):
+                agree = False
+                detail["text_entries"] = dict(impl=len(segs), model=len(texts))
+            else:
+                n_in = 0
+                for sg, tx, (k, _) in zip(segs, texts, tree):
+                    if tx is None:
+                        # an entry outside the class still has to begin with its key (order of the document)
+                        if not (sg.startswith(k + ":") or sg.startswith("'" + k) or sg.startswith('"')):
+                            agree = False
+                            detail.setdefault("text_entry_diff", []).append(dict(key=k, impl=sg[:200], model=None))
+                        continue
+                    n_in += 1
+                    if tx != sg:
+                        agree = False
+                        detail.setdefault("text_entry_diff", []).append(dict(key=k, impl=sg[:400], model=tx[:400]))
+                tags.append("text-entries-in-class:%d/4" % (4 * n_in // max(1, len(texts))))
+        else:
+            in_class = True
+            tags.append("text-in-class" if r["nodup"] else "text-in-class-dup-keys")     # WFTree of parse_emit_partial
+            if r["text"] != text:
+                agree = False
+                detail["text_diff"] = _first_diff(text, r["text"])
+            if r["doc"] is None or docs_equal(r["doc"], model_doc):
+                agree = False
+                detail["text_tree_doc"] = "treeDoc of the emitted tree is not the model's document"
+    tags.append("written")
+    if not text_parse_check(drv, text, pdoc, wire, tags, detail, must_parse=in_class and agree and r["nodup"]):
+        agree = False
+    tags.remove("written")
+    return agree
+
+
 # ------------------------------------------------------------------------------------------ run
 
 def run(case, drv):
-    return dict(read=run_read, write=run_write, rw=run_rw, wr=run_wr)[case["claim"]](case, drv)
+    return dict(read=run_read, write=run_write, rw=run_rw, wr=run_wr, text=run_text)[case["claim"]](case, drv)
+
+
+BUNDLED = ("rsc/maps/qua/NeuroCloud.qua",)
+
+
+def run_text(case, drv):
+    """text layer only: a .qua file written by the Quaver editor (bundled with the repository; it carries per-object keys
+    the chart model does not know, so it is no `read` case) - parseQua must accept it and agree with yaml.safe_load"""
+    import os
+    import sys
+    import yaml
+    path = os.path.join(os.environ.get("REAMBER_REPO", sys.path[0] or "/repo"), case["bundled"])
+    with open(path, "rb") as f:
+        text = f.read().decode("utf-8-sig").replace("\r\n", "\n")
+    py = yaml.safe_load(text)
+    p = drv.call("c06.parse_text", text=text)["ok"]
+    tags, detail, agree = ["bundled-file"], {}, True
+    if p["tree"] is None:
+        agree = False
+        detail["text_parse"] = "parseQua rejects the bundled editor-written file " + case["bundled"]
+    elif not tree_matches_py(p["tree"], py):
+        agree = False
+        detail["text_parse"] = "parseQua and yaml.safe_load differ on " + case["bundled"]
+    else:
+        tags.append("re-emitted-identically" if p["reemit"] == text else "re-emitted-differently")
+    return dict(claim="text", ok=True, agree=agree, dom=True, kf=None, tags=tags, nontrivial=True, maxdev=0.0, detail=detail)
 
 
 def _text_tags(text):
@@ -1152,6 +1454,8 @@ def run_read(case, drv):
     if via_problems:
         ok = False
         detail["entry_point"] = via_problems
+    if not text_parse_check(drv, exact, pdoc, wire, tags, detail):
+        agree = False
     if not (ok and agree):
         detail.update(text=text, impl=impl[:2], model=model, spec=spec)
     nontrivial = bool(pdoc.get("HitObjects") or pdoc.get("TimingPoints") or "folded-scalar" in tags) and len(tags) > 3
@@ -1305,6 +1609,8 @@ def run_write(case, drv, then_read=False):
             if p and not boundary:
                 agree = False
                 detail["model_diff"] = p[:8]
+            if not p and not text_write_check(drv, model["ok"], impl[2], impl[1], wire, tags, detail):
+                agree = False
         judge_written(drv, wire, ch, domc, problems, findings)
         tags.extend(_text_tags(impl[2]))
         if then_read:
@@ -1383,6 +1689,8 @@ def run_wr(case, drv):
             if p and not boundary:
                 agree = False
                 detail["model_diff"] = p[:8]
+            if not p and not text_write_check(drv, mw["ok"], w[2], w[1], wire2, tags, detail):
+                agree = False
         if "ok" in spec:
             # the written document is allowed and denotes what the original denotes (times moved by < 1 ms)
             domc = drv.call("c06.dom_chart", chart=spec["ok"])["ok"]
